@@ -46,7 +46,8 @@ def gen(tier, rng, scale):
                 r = rng.below(10)
                 if r < 6:
                     m = rng.choice(pool)
-                    mm.append([m["debugName"], m["breakpadId"], m])
+                    # the id as printed, or the same id in lower case (both spellings name the same build)
+                    mm.append([m["debugName"], m["breakpadId"] if not rng.chance(1, 8) else m["breakpadId"].lower(), m])
                 elif r < 8:
                     u = rng.choice(unknown)
                     mm.append([u[0], u[1], None])
